@@ -11,6 +11,12 @@ every check (clang JSON AST of AsyncLogging::threadFunc / append, AppendFile::ap
   AsyncLogging_recycle_keep     : Z      k of `buffersToWrite.resize(k)`
   AsyncLogging_append_fit_is_gt : bool   `currentBuffer_->avail() > len` (strict) in append
   LogFile_roll_guard_is_gt      : bool   `if (now > lastRoll_)` in rollFile
+  FixedBuffer_append_copy_is_gt : bool   `if (avail() > len) memcpy` (strict) in FixedBuffer::append (LogStream.h)
+  LogFile_default_flushInterval / LogFile_default_checkEveryN / AsyncLogging_default_flushInterval : Z
+        default constructor arguments
+  AppendFile_append_loop_ok     : bool   AppendFile::append is the retry loop the model `af_loop` transcribes:
+        `while (written != len)`, the only other exit is the break under a non-zero ferror() after a short
+        write, `written += n` is the last statement of the body
 What cannot be matched falls back to the committed value and prints a FALLBACK line (the check then
 reports a broken generated-fact obligation)."""
 import os, sys, re
@@ -114,6 +120,81 @@ def roll_guard():
     return False, "no `now > lastRoll_` guard in rollFile"
 
 
+LS = "muduo/base/LogStream.h"
+FU = "muduo/base/FileUtil.cc"
+
+
+def copy_fact():
+    """FixedBuffer::append copies iff `avail() > len` (strict)?"""
+    fn = cxxast.function_decl(LS, "FixedBuffer::append")
+    for n in cxxast.walk(fn):
+        if n.get("kind") == "IfStmt":
+            cond = cxxast.strip(n["inner"][0])
+            t = clean(cxxast.src_text(cond, LS))
+            if cond.get("kind") == "BinaryOperator" and cond.get("opcode") in (">", ">=") and "avail()" in t and re.search(r"\blen$", t):
+                has_copy = any(cxxast.src_text(m, LS).startswith("memcpy") for m in cxxast.walk(n["inner"][1]) if m.get("kind") == "CallExpr")
+                if has_copy:
+                    return cond.get("opcode") == ">", t
+    raise cxxast.Untranslatable("no `if (avail() > len) memcpy` in FixedBuffer::append")
+
+
+def ctor_default(relfile, cls, param):
+    """Default argument of a constructor parameter (integer literal expression)."""
+    for d in cxxast.dump(relfile, "%s::%s" % (cls, cls)):
+        for n in cxxast.walk(d):
+            if n.get("kind") != "CXXConstructorDecl":
+                continue
+            for c in n.get("inner", []):
+                if isinstance(c, dict) and c.get("kind") == "ParmVarDecl" and c.get("name") == param and c.get("init"):
+                    for x in c.get("inner", []):
+                        if isinstance(x, dict):
+                            try:
+                                return cxxast.const_eval(x)
+                            except Exception:   # noqa
+                                pass
+    raise cxxast.Untranslatable("no default argument %s of %s" % (param, cls))
+
+
+def append_loop_fact():
+    """AppendFile::append is `while (written != len) { remain = len - written; n = write(p + written, remain);
+    if (n != remain) { err = ferror(fp_); if (err) { ...; break; } } written += n; }`:
+    the only exit besides completion is the break under a non-zero ferror, and `written += n` ends the body."""
+    fn = cxxast.function_decl(FU, "AppendFile::append")
+    whiles = [c for c in cxxast.walk(fn) if c.get("kind") == "WhileStmt"]
+    if len(whiles) != 1:
+        return False, "%d while loops" % len(whiles)
+    wh = whiles[0]
+    inner = [c for c in wh.get("inner", []) if isinstance(c, dict)]
+    cond, body = cxxast.strip(inner[0]), inner[1]
+    tc = clean(cxxast.src_text(cond, FU))
+    ok = cond.get("kind") == "BinaryOperator" and cond.get("opcode") == "!=" and re.match(r"written\s*!=\s*len$", tc) is not None
+    stmts = [c for c in body.get("inner", []) if isinstance(c, dict)]
+    last = stmts[-1] if stmts else {}
+    tl = clean(cxxast.src_text(last, FU))
+    ok = ok and last.get("kind") == "CompoundAssignOperator" and re.match(r"written\s*\+=\s*n$", tl) is not None
+    # every break / return / goto inside the loop sits in `if (err)` inside `if (n != remain)`
+    def exits(node, guards):
+        k = node.get("kind")
+        if k in ("BreakStmt", "ReturnStmt", "GotoStmt", "ContinueStmt"):
+            yield guards
+        if k == "IfStmt":
+            sub = [c for c in node.get("inner", []) if isinstance(c, dict)]
+            g = clean(cxxast.src_text(cxxast.strip(sub[0]), FU))
+            for c in sub[1:2]:
+                yield from exits(c, guards + [g])
+            for c in sub[2:]:
+                yield from exits(c, guards + ["!(" + g + ")"])
+            return
+        for c in node.get("inner", []) or []:
+            if isinstance(c, dict):
+                yield from exits(c, guards)
+    ex = list(exits(body, []))
+    ok = ok and len(ex) == 1 and len(ex[0]) == 2 and re.match(r"n\s*!=\s*remain$", ex[0][0]) is not None and ex[0][1] == "err"
+    # err is ferror(fp_)
+    ok = ok and any(clean(cxxast.src_text(v, FU)).replace(" ", "") == "interr=ferror(fp_)" for v in cxxast.walk(body) if v.get("kind") == "VarDecl")
+    return ok, "while (%s) ... exits under %s; last statement %s" % (tc, ex, tl)
+
+
 def main():
     out = ["(* GENERATED by lib/gen_C16.py from %s -- do not edit *)" % cxxast.REPO,
            "From Coq Require Import ZArith Bool.", "Local Open Scope Z_scope.", ""]
@@ -149,6 +230,30 @@ def main():
         rg = True
         msgs.append("FALLBACK LogFile_roll_guard (%s)" % clean(str(e)))
     out.append("Definition LogFile_roll_guard_is_gt : bool := %s." % ("true" if rg else "false"))
+    try:
+        cp, src = copy_fact()
+        out.append("(* %s: %s *)" % (LS, src))
+    except Exception as e:  # noqa
+        cp = True
+        msgs.append("FALLBACK FixedBuffer_append_copy (%s)" % clean(str(e)))
+    out.append("Definition FixedBuffer_append_copy_is_gt : bool := %s." % ("true" if cp else "false"))
+    for name, rel, cls, par, dflt in (("LogFile_default_flushInterval", "muduo/base/LogFile.cc", "LogFile", "flushInterval", 3),
+                                      ("LogFile_default_checkEveryN", "muduo/base/LogFile.cc", "LogFile", "checkEveryN", 1024),
+                                      ("AsyncLogging_default_flushInterval", "muduo/base/AsyncLogging.cc", "AsyncLogging", "flushInterval", 3)):
+        try:
+            v = ctor_default(rel, cls, par)
+            out.append("(* default argument %s of %s::%s *)" % (par, cls, cls))
+        except Exception as e:  # noqa
+            v = dflt
+            msgs.append("FALLBACK %s (%s)" % (name, clean(str(e))))
+        out.append("Definition %s : Z := (%d)." % (name, v))
+    try:
+        lp, src = append_loop_fact()
+        out.append("(* %s AppendFile::append: %s *)" % (FU, clean(src)))
+    except Exception as e:  # noqa
+        lp = False
+        msgs.append("FALLBACK AppendFile_append_loop (%s)" % clean(str(e)))
+    out.append("Definition AppendFile_append_loop_ok : bool := %s." % ("true" if lp else "false"))
     txt = "\n".join(out) + "\n"
     path = os.path.join(cxxast.ROOT, "coq/Gen_C16.v")
     old = open(path).read() if os.path.exists(path) else None
